@@ -30,9 +30,15 @@ EVIDENCE = os.environ.get("VERIF_EVIDENCE_DIR") or (
 PARTIAL = os.path.join(EVIDENCE, ".partial")
 KNOWN = os.path.join(HERE, "known_findings.json")
 
-PARSIM = os.path.join(HERE, "target-parsim", "release", "parsim")
-SEAMSIM = os.path.join(HERE, "target-seamsim", "release", "seamsim")
-SEAMSIM_DBG = os.path.join(HERE, "target-seamsim", "checked", "seamsim")
+# builds of a scratch copy (VERIF_REPO=<dir>: mutants, seeded changes) go to their own target
+# directories so that the build cache for /repo itself stays warm
+SCRATCH = os.path.realpath(REPO) != "/repo"
+TGT_SUFFIX = "-scratch" if SCRATCH else ""
+TGT_PARSIM = os.path.join(HERE, "target-parsim" + TGT_SUFFIX)
+TGT_SEAMSIM = os.path.join(HERE, "target-seamsim" + TGT_SUFFIX)
+PARSIM = os.path.join(TGT_PARSIM, "release", "parsim")
+SEAMSIM = os.path.join(TGT_SEAMSIM, "release", "seamsim")
+SEAMSIM_DBG = os.path.join(TGT_SEAMSIM, "checked", "seamsim")
 
 ENV = dict(os.environ, CARGO_NET_OFFLINE="true")
 # glibc malloc otherwise trims and re-faults the heap top on every large temporary buffer
@@ -55,11 +61,13 @@ def log(*a):
 # ----------------------------------------------------------------------------
 # each part: (engine, sub-property, {tier: {"count": workloads, "scheds": schedules per workload}})
 PLANS = {
-    "C05": [("parsim", "C05", {"quick": dict(count=3000, scheds=20), "thorough": dict(count=60000, scheds=40)})],
+    "C05": [("parsim", "C05", {"quick": dict(count=3000, scheds=20), "thorough": dict(count=60000, scheds=40)}),
+            ("miri", "C05E3", {"thorough": dict(count=32)})],
     "C03": [("parsim", "C03", {"quick": dict(count=2500, scheds=12), "thorough": dict(count=50000, scheds=30)})],
     "C06": [
         ("parsim", "C06", {"quick": dict(count=3000, scheds=16), "thorough": dict(count=60000, scheds=32)}),
         ("parsim", "C06N", {"quick": dict(count=600, scheds=10), "thorough": dict(count=10000, scheds=20)}),
+        ("miri", "C06E3", {"thorough": dict(count=32)}),
     ],
     "C10": [
         ("seamsim", "C10", {"quick": dict(count=4000), "thorough": dict(count=150000)}),
@@ -93,7 +101,8 @@ LEVEL = {
 # ----------------------------------------------------------------------------
 def run_cargo(cwd, extra, what):
     t0 = time.time()
-    p = subprocess.run(["cargo", "build", "--offline"] + extra, cwd=cwd, env=ENV,
+    env = dict(ENV, CARGO_TARGET_DIR=TGT_PARSIM if cwd.endswith("parsim") else TGT_SEAMSIM)
+    p = subprocess.run(["cargo", "build", "--offline"] + extra, cwd=cwd, env=env,
                        stdout=subprocess.PIPE, stderr=subprocess.STDOUT, text=True)
     if p.returncode != 0:
         sys.stderr.write(p.stdout[-6000:])
@@ -239,6 +248,96 @@ def run_part(prop, engine, sub, tier, seed, params, nchild=None, max_candidates=
 
 
 # ----------------------------------------------------------------------------
+# E3: the shipped multi-thread encoder (real threads, real crossbeam-channel) under Miri's seeded scheduler
+# ----------------------------------------------------------------------------
+MIRI_DIR = os.path.join(HERE, "miri")
+TGT_MIRI = os.path.join(HERE, "target-miri" + TGT_SUFFIX)
+MIRI_SCENARIOS = {
+    # (workers, frames, channels, fault, k)
+    "C05E3": [(1, 3, 1, "none", 0), (2, 4, 1, "none", 0), (3, 5, 2, "none", 0), (2, 7, 1, "none", 0), (4, 2, 1, "none", 0), (2, 0, 1, "none", 0)],
+    "C06E3": [(2, 4, 1, "readerr", 0), (2, 4, 1, "readerr", 2), (2, 4, 1, "readerr", 4), (3, 6, 2, "readerr", 5),
+              (2, 4, 1, "oor", 0), (2, 5, 1, "oor", 3), (1, 3, 1, "oor", 1), (3, 7, 1, "oor", 6)],
+}
+
+
+def miri_cmd(sc, flags):
+    env = dict(ENV, MIRIFLAGS=flags, CARGO_TARGET_DIR=TGT_MIRI)
+    cmd = ["cargo", "+nightly", "miri", "run", "--offline", "-q", "--"] + [str(x) for x in sc]
+    return cmd, env
+
+
+def miri_classify(out):
+    if "MIRISIM-DISAGREE" in out:
+        return "par_vs_single_disagree_real_threads"
+    for key, cls in (("deadlock", "deadlock_real_threads"), ("terminated without waiting for all remaining threads", "thread_leak_real_threads"),
+                     ("Data race", "data_race"), ("Undefined Behavior", "undefined_behaviour"), ("panicked at", "panic_real_threads")):
+        if key in out:
+            return cls
+    return None
+
+
+def run_miri(prop, sub, seed, params):
+    """Returns (summary, candidates)."""
+    lock = os.path.join(MIRI_DIR, "Cargo.lock")
+    if not os.path.exists(lock):
+        shutil.copy(os.path.join(REPO, "Cargo.lock"), lock)
+    nseeds = params["count"]
+    lo = (seed * 1000) % 1000000
+    t0 = time.time()
+    agree = 0
+    cands = []
+    hist = {}
+    for sc in MIRI_SCENARIOS[sub]:
+        cmd, env = miri_cmd(sc, "-Zmiri-many-seeds=%d..%d -Zmiri-preemption-rate=0.1" % (lo, lo + nseeds))
+        p = subprocess.run(cmd, cwd=MIRI_DIR, env=env, stdout=subprocess.PIPE, stderr=subprocess.STDOUT, text=True)
+        n = p.stdout.count("MIRISIM-AGREE")
+        agree += n
+        hist["%s_k%d_w%d" % (sc[3], sc[4], sc[0])] = n
+        if p.returncode == 0 and n == nseeds:
+            continue
+        cls = miri_classify(p.stdout)
+        if cls is None:
+            raise HarnessError("miri run failed without a recognised report: %s" % p.stdout[-1500:])
+        # find one failing seed so that the replay is a single deterministic execution
+        bad = None
+        for ms in range(lo, lo + nseeds):
+            c2, e2 = miri_cmd(sc, "-Zmiri-seed=%d -Zmiri-preemption-rate=0.1" % ms)
+            q = subprocess.run(c2, cwd=MIRI_DIR, env=e2, stdout=subprocess.PIPE, stderr=subprocess.STDOUT, text=True)
+            if miri_classify(q.stdout) == cls:
+                bad = ms
+                break
+        if bad is None:
+            raise HarnessError("miri failure (%s) did not reproduce with a single seed" % cls)
+        rf = {"property": prop, "engine": "miri", "verif_seed": seed, "scenario": list(sc), "miri_seed": bad,
+              "observed": {"class": cls, "site": sc[3], "message": "", "detail": q.stdout[-800:]}, "minimised": True}
+        path = os.path.join(REPLAYS, "%s-%s-miri-%s-k%d-seed%d.cand.json" % (prop, sub, sc[3], sc[4], bad))
+        os.makedirs(REPLAYS, exist_ok=True)
+        json.dump(rf, open(path, "w"), indent=1)
+        cands.append({"path": path, "result": {"class": cls, "site": sc[3], "detail": "scenario %s, miri seed %d" % (list(sc), bad)},
+                      "file": rf, "engine": "miri", "sub": sub})
+    execs = len(MIRI_SCENARIOS[sub]) * nseeds
+    summ = {"executions": execs, "cases": execs, "distinct_nontrivial": agree, "wall_s": time.time() - t0,
+            "outcomes": dict(hist), "rule": "E3 cross-check: the shipped guard-off build (real std threads, real crossbeam-channel) runs %d tiny "
+            "scenarios (workers, frames, channels, fault, k) under Miri's seeded scheduler, %d seeds each (preemption rate 0.1); every "
+            "execution compares multi-thread with single-thread results; Miri itself reports deadlocks, leaked threads, data races. "
+            "distinct_nontrivial = executions that ran to completion and agreed (each has its own scheduler seed)." % (len(MIRI_SCENARIOS[sub]), nseeds),
+            "samples": [{"scenario": list(MIRI_SCENARIOS[sub][0]), "miri_seeds": [lo, lo + nseeds]}]}
+    return summ, cands
+
+
+def exec_miri_file(path):
+    rf = json.load(open(path))
+    c2, e2 = miri_cmd(rf["scenario"], "-Zmiri-seed=%d -Zmiri-preemption-rate=0.1" % rf["miri_seed"])
+    q = subprocess.run(c2, cwd=MIRI_DIR, env=e2, stdout=subprocess.PIPE, stderr=subprocess.STDOUT, text=True)
+    cls = miri_classify(q.stdout)
+    if cls:
+        return 3, {"class": cls, "site": rf["scenario"][3], "detail": q.stdout[-600:]}, None
+    if q.returncode != 0:
+        return 2, {"harness_error": q.stdout[-800:]}, None
+    return 0, {}, None
+
+
+# ----------------------------------------------------------------------------
 # signatures, replay, minimisation
 # ----------------------------------------------------------------------------
 def sig_of(res):
@@ -246,6 +345,8 @@ def sig_of(res):
 
 
 def exec_file(engine, path, extra=(), timeout=600):
+    if engine == "miri":
+        return exec_miri_file(path)
     cmd = [engine_bin(engine), "exec", "--file", path] + list(extra)
     try:
         p = subprocess.run(cmd, stdout=subprocess.PIPE, stderr=subprocess.PIPE, text=True, env=ENV, timeout=timeout)
@@ -430,7 +531,7 @@ def finalise_candidate(prop, cand, idx):
     """Minimises, replays in a fresh process, writes the final replay file. Returns its path."""
     engine = cand["engine"]
     try:
-        rf = minimise_parsim(cand) if engine == "parsim" else minimise_seamsim(cand)
+        rf = cand["file"] if engine == "miri" else (minimise_parsim(cand) if engine == "parsim" else minimise_seamsim(cand))
     except Exception as e:  # minimisation is best effort; the unminimised file is still a replay
         rf = cand["file"]
         rf.setdefault("notes", []).append("minimisation failed: %r" % (e,))
@@ -498,6 +599,8 @@ def merge(summaries):
                 vec[i] = max(vec[i], v) if k in VEC_MAX else vec[i] + v
         if vec:
             m[k] = vec
+    if any("digest" in s for s in summaries):
+        m["digest"] = "%016x" % (sum(s.get("digest", 0) for s in summaries) % (1 << 64))
     samples = []
     for s in sorted(summaries, key=lambda s: s.get("child", 0)):
         for x in s.get("samples", []):
@@ -556,6 +659,8 @@ def write_evidence(prop, tier, seed, parts, wall, violations, known_matched, bui
     cov["runs_per_hour"] = int(evaluations / wall * 3600) if wall > 0 else 0
     cov["real_components"] = REAL
     engines = {e for (e, _) in parts}
+    if "miri" in engines:
+        cov["miri_cross_check"] = "shipped guard-off build under Miri (real std threads, real crossbeam-channel): no stub"
     cov["stub_components"] = (STUBS_E1 if "parsim" in engines else []) + (STUBS_E2 if any(e.startswith("seamsim") for e in engines) else [])
     cov["known_findings_matched"] = known_matched
     cov["build_s"] = build_s
@@ -608,6 +713,12 @@ def cmd_check(prop, tier, seed):
         if tier not in tiers:
             continue
         params = tiers[tier]
+        if engine == "miri":
+            summ, cands = run_miri(prop, sub, seed, params)
+            parts[(engine, sub)] = merge([summ])
+            parts[(engine, sub)]["rule"] = summ["rule"]
+            all_cands += cands
+            continue
         sums, cands = run_part(prop, engine, sub, tier, seed, params)
         parts[(engine, sub)] = merge(sums)
         for s in sums:
@@ -652,7 +763,7 @@ def cmd_check(prop, tier, seed):
 def cmd_replay(path):
     rf = json.load(open(path))
     engine = rf.get("engine", "parsim")
-    build({engine})
+    build({engine} if engine != "miri" else set())
     observed = rf.get("observed") or {}
     rc, res, _ = exec_file(engine, path, ["--replay-out", tmp_path("replay-out")])
     if rc == 3:
@@ -660,7 +771,7 @@ def cmd_replay(path):
         log("  class=%s site=%s %s" % (res.get("class"), res.get("site"), (res.get("detail") or res.get("message") or "")[:400]))
         if not same:
             log("  (recorded class was %s)" % observed.get("class"))
-        log("VIOLATION property=%s replay=%s" % (rf.get("property"), path))
+        log("VIOLATION property=%s replay=%s" % ((rf.get("property") or "")[:3], path))
         return 1
     if rc == 0:
         log("replay of %s: no violation on the current tree" % path)
